@@ -467,6 +467,10 @@ void _mi_page_retire(mi_page_t* page) mi_attr_noexcept {
 
   mi_page_set_has_aligned(page, false);
 
+  // a page without a heap was abandoned while its segment stayed with this thread (`mi_heap_delete` of a heap that cannot
+  // be absorbed into the backing heap): it is in no page queue; it is freed when the segment is abandoned and reclaimed.
+  if mi_unlikely(mi_page_heap(page) == NULL) return;
+
   // don't retire too often..
   // (or we end up retiring and re-allocating most of the time)
   // NOTE: refine this more: we should not retire if this
